@@ -251,6 +251,41 @@ func init() {
 		}
 		return mkStr(out)
 	}
+	E["strings.TrimSpace"] = func(fr *frame, args []value) value {
+		str, isStr := args[0].(string)
+		if isStr {
+			return strings.TrimSpace(str)
+		}
+		s := strElems(args[0])
+		fr.requireASCII(s, "strings.TrimSpace")
+		isSp := func(e value) *Term {
+			t := termOf(e)
+			return mkOr(mkAnd(bvCmp("bvuge", t, mkBV(8, 9)), bvCmp("bvule", t, mkBV(8, 13))), mkEq(t, mkBV(8, 32)))
+		}
+		px := fr.px()
+		// first non-space from the left
+		var conds []*Term
+		pre := tTrue
+		for _, e := range s {
+			sp := isSp(e)
+			conds = append(conds, mkAnd(pre, mkNot(sp)))
+			pre = mkAnd(pre, sp)
+		}
+		conds = append(conds, pre) // all space
+		start := px.decideX(conds, true)
+		if start == len(s) {
+			return ""
+		}
+		conds = nil
+		pre = tTrue
+		for j := len(s) - 1; j >= start; j-- {
+			sp := isSp(s[j])
+			conds = append(conds, mkAnd(pre, mkNot(sp)))
+			pre = mkAnd(pre, sp)
+		}
+		k := px.decideX(conds, true)
+		return mkStr(append([]value(nil), s[start:len(s)-k]...))
+	}
 	E["strings.ToUpper"] = func(fr *frame, args []value) value {
 		s := strElems(args[0])
 		fr.requireASCII(s, "strings.ToUpper")
